@@ -66,6 +66,7 @@ def _cases(tier):
     cases += [("async", i) for i in range(12 if tier == "quick" else 300)]
     cases += [("double", i) for i in range(10 if tier == "quick" else 250)]
     cases += [("in_pipe_write", i) for i in range(1 if tier == "quick" else 8)]
+    cases += [("in_pipe_write_small", i) for i in range(2 if tier == "quick" else 8)]
     cases += [("holding_writer_lock", i) for i in range(len(LOCK_CFGS) if tier == "quick" else 4 * len(LOCK_CFGS))]
     return cfgs, cases
 
@@ -274,11 +275,20 @@ def run_case(ctx, rng, index, casedir):
         sit["in_delivery_executions"] += 1
         big = 300_000
         ln, lb, lc, lv = LOCK_CFGS[case[1] % len(LOCK_CFGS)] if variant == "holding_writer_lock" else (4, 2, 2, 0)
-        w = RR.make_workload(rng, casedir, ln, big_tag=big)
+        if variant == "in_pipe_write_small":
+            # many SMALL results (each far below PIPE_BUF, so every message of the one-record-per-message
+            # protocol is written atomically) that together exceed the pipe capacity, default batch size
+            big = None
+            w = RR.make_workload(rng, casedir, rng.randint(500, 900), read_len=(20, 60))
+        else:
+            w = RR.make_workload(rng, casedir, ln, big_tag=big)
         out = os.path.join(casedir, "out.gaf")
         state = {"killed": None}
-        if variant == "in_pipe_write":
+        if variant in ("in_pipe_write", "in_pipe_write_small"):
             planned = {"cores": 1, "timeout_scale": 1.0, "parent_delays": {"before_every_get": 0.4}}
+            if not big:
+                # the parent is late for its first reads (the worker fills the pipe and blocks), then keeps up
+                planned["parent_delays"] = {"before_get:1": 2.0, "before_get:2": 2.0, "before_get:3": 2.0, "before_every_get": 0.01}
 
             def on_poll(p, logdir):
                 if state["killed"]:
@@ -299,7 +309,7 @@ def run_case(ctx, rng, index, casedir):
                         except (OSError, ValueError):
                             pass
             fault = {"worker": 0, "point": "in_pipe_write", "kind": "SIGKILL"}
-            run = RR.run_driver(casedir, "pipe", ["realign", w.gaf, w.gfa, w.fasta, "-o", out, "-c", "1"], planned, 4, timeout=45, on_poll=on_poll)
+            run = RR.run_driver(casedir, "pipe", ["realign", w.gaf, w.gfa, w.fasta, "-o", out, "-c", "1"], planned, 4 if big else None, timeout=45 if big else 120, on_poll=on_poll)
             if state["killed"]:
                 run["events"].append({"ev": "fault_fire", "t": 0, "pid": 0, "role": "supervisor"})
         else:
@@ -310,7 +320,7 @@ def run_case(ctx, rng, index, casedir):
             sit[f"lock_cfg:{ln}/{lb}/{lc}/victim{lv}"] += 1
         evals = 1
         sit["executions"] += 1
-        wit = {"variant": variant, "record_bytes": big, "killed": state["killed"], "config": [ln, lb, lc, lv]}
+        wit = {"variant": variant, "record_bytes": big or max(len(l) for l in w.lines), "killed": state["killed"], "config": [ln, lb, lc, lv]}
         judge(run, fault, wit, "", out, viol, sit)
         sigs.append(stable_hash([variant, index]))
     return {"sigs": sigs, "evals": max(evals, 1), "situations": dict(sit), "violations": viol,
